@@ -274,7 +274,7 @@ LEMMAS = {
                symbolic='mod, imm32, r0-r7, f/e/a, scratchpad, E masks, frm, every other register, reciprocal literal slots, program index, last-writer table, earlier instruction offsets',
                stubs=['FP ops := uninterpreted functions of (rounding mode, operands), shared with the spec', 'randomx_reciprocal_fast := uninterpreted rcp (R1/R2)', 'RV64 semantics: engine/rv64sem.py (ISA manual transcription; decoding cross-checked against llvm-objdump, semantics NOT validated on hardware)',
                       'frame facts assumed: x5 = scratchpad, x3 = literal pool + 2048, mask/literal registers loaded from the pool slots V0 checks, x1 = L3 mask + 56'],
-               outside='the hand-written prologue/loop/dataset/AES code, the vector (RVV) back-end, SuperscalarHash code; built without Zba/Zbb (the x86-hosted lowering does not define them); IEEE arithmetic'),
+               outside='the vector (RVV) back-end; the Zba/Zbb variants of the emitters (the x86-hosted lowering does not define them); IEEE arithmetic (the program loop is V3, the generated SuperscalarHash code V5/V6)'),
     'V0': dict(jobs=lambda ctx: ['runtime'], run=run_V0, units=[], rv64=True, functions=['engine/rv64sem.py decoder', 'jit_compiler_rv64_static.S literal-pool loads'],
                doc='RV64 decoder cross-check: every instruction of the assembled scalar runtime inside the modelled subset reads the same in the model and in llvm-objdump (lengths, fields, compressed expansions); the runtime loads the mask and literal registers from the pool slots V1 assumes',
                bound='the assembled runtime from data_init to program_end', symbolic='-', stubs=[]),
@@ -409,4 +409,4 @@ LEMMAS['V5'] = dict(jobs=jobs_V5, run=run_V5, units=['rv64'], rv64=True,
     doc='the SuperscalarHash routine the scalar RISC-V back-end generates (templates + code emitted for a program list + reciprocal literal pool), executed under the RV64 model for a symbolic cache and item number, leaves the item of specification 7.3 (instruction semantics of 6.1) in x8-x15; reads exactly one cache line per program at 64*(cacheIndex mod lines)',
     bound='(a) program lists of 8 programs x 2 (quick) / 4 instructions drawn from all 14 kinds (4 / 16 variants), reciprocals symbolic, immediates and shifts concrete representatives of every materialisation class; (b) every kind alone in one program with an unconstrained immediate; any cache content and item number',
     symbolic='cache (cut points), item number, immediates, reciprocals, entry registers', stubs=['cache words := fresh symbols at recorded addresses', 'RV64 semantics: engine/rv64sem.py', 'ld.lld resolves the pc-relative relocations of the templates'],
-    outside='randomx_riscv64_data_init loop around the call (stores x8-x15 to the dataset); the vector back-end')
+    outside='the vector back-end (the loop around the call is V6)')
